@@ -17,12 +17,16 @@ input In2 { s: String!, t: Boolean }
 input In { p: Int = 3, q: [Int!], r: In2 = {s: "d"}, e: E = Y, n: In }
 input One @oneOf { i: Int, s: String }
 input Filter { min: Int!, tag: String }
+scalar Any
 type Query {
   echo(i: Int, x: Int = 7, e: E, inp: In, l: [Int], f: Float, id: ID, b: Boolean): String
   req(r: Int!, rl: [Int!]!): String
   dfl(ll: [In!] = [{p: 1}], s: String = "dflt", nd: Int! = 5, one: One): String
   sum(values: [Int!] = [1, 2], o: In = {q: [1]}): String
   many(filters: [Filter!], grid: [[Filter]]): String
+  anyarg(j: Any, k: Any = {d: [1]}): String
+  anyout: Any
+  anys: [Any]
   plain: Int
   sub: Query
 }
@@ -48,6 +52,13 @@ def build(which):
     e = s.type_map["E"]
     e.values["X"].value = "ex"
     e.values["Y"].value = 2
+    any_t = s.type_map["Any"]
+    # a custom scalar with the literal-coercion API (receives the literal with variables replaced) and an output
+    # coercion that yields no value for one input
+    from vf.ref.coerce import untyped_literal
+
+    any_t.coerce_input_literal = lambda node: untyped_literal(node, {})
+    any_t.coerce_output_value = any_t.serialize = lambda v: None if v == "drop" else v
     s.type_map["In"].fields["p"].out_name = "p_out"
     s.query_type.fields["echo"].args["x"].out_name = "x_out"
     return s
